@@ -280,6 +280,21 @@ func (ex *Exec) run() (err error) {
 		}
 	}
 	st.ghost0 = map[string]Term{}
+	// axioms (trusted, listed in the evidence)
+	for _, pk := range sortedKeys(ex.prog.PC) {
+		for _, ax := range ex.prog.PC[pk].Axioms {
+			e := &Env{st: st, pkgPath: ax.PkgPath, info: ex.prog.infoFor(ax.PkgPath), vars: map[string]BVal{}, cur: st.heap, old: st.heap, allocLo: st.alloc0}
+			st.sc.comment("axiom %s: %s", ax.Name, ax.Clause.Text)
+			st.sc.assert(e.eval(ax.Clause.Expr))
+		}
+	}
+	if pc := ex.prog.PC[ex.pkgPath()]; pc != nil && fn.Synthetic == "" {
+		for _, gi := range pc.GlobalInvs {
+			e := &Env{st: st, pkgPath: gi.PkgPath, info: ex.prog.infoFor(gi.PkgPath), vars: map[string]BVal{}, cur: st.heap, old: st.heap, allocLo: st.alloc0}
+			st.sc.comment("global invariant %s", gi.Requires[0].Text)
+			st.sc.assert(e.eval(gi.Requires[0].Expr))
+		}
+	}
 	ex.cons = nil
 	if ex.con != nil {
 		ex.cons = append(ex.cons, ex.con)
@@ -309,6 +324,13 @@ func (ex *Exec) run() (err error) {
 	st.entry = copyMap(st.heap)
 	ex.walk(st, fn.Blocks[0], nil)
 	return nil
+}
+
+func (ex *Exec) pkgPath() string {
+	if ex.fn.Pkg != nil {
+		return ex.fn.Pkg.Pkg.Path()
+	}
+	return ""
 }
 
 func (ex *Exec) bindLets(c *Contract, e *Env) {
@@ -404,7 +426,7 @@ func (ex *Exec) val(st *State, v ssa.Value) Term {
 	case *ssa.Const:
 		return ex.constVal(st, c)
 	case *ssa.Global:
-		return st.globalID(c.Object().(*types.Var))
+		return st.globalIDByName(c.Pkg.Pkg.Path() + "." + c.Name())
 	case *ssa.Function:
 		return st.funcValue(c)
 	case *ssa.Builtin:
@@ -456,7 +478,10 @@ func (ex *Exec) locOf(st *State, v ssa.Value) Loc {
 // globals, function values
 
 func (st *State) globalID(v *types.Var) Term {
-	key := v.Pkg().Path() + "." + v.Name()
+	return st.globalIDByName(v.Pkg().Path() + "." + v.Name())
+}
+
+func (st *State) globalIDByName(key string) Term {
 	id := st.u().funcID("global:" + key) // shares the small-id space
 	return intLit(int64(id))
 }
